@@ -265,6 +265,8 @@ def judge(desc, env):
             d2["schedules"].append({"perm_seed": None if k == 0 else H(desc["run_seed"], "followup", k) % (1 << 30), "disable": [], "enable": allr, "phase": {}, "passes": [{"all": True, "skip": []}]})
         for w in ws[:4]:
             d2["schedules"].append({"perm_seed": None, "disable": [], "enable": [w], "phase": {}, "passes": [{"all": True, "skip": []}]})
+            # ... and moved to the first phase, so that every other rule analyses after it
+            d2["schedules"].append({"perm_seed": None, "disable": [], "enable": [w], "phase": {w: 1}, "passes": [{"all": True, "skip": []}]})
         r2 = env.run(d2)
         R2 = api_result(r2)
         if R2 is not None and R2.get("alone") is not None:
